@@ -562,6 +562,11 @@ def stress_campaign(out, pid, tier, focus, race=False):
                 sp = next(s for s in chunk if s["id"] == f[1])
                 out.violation("ungated walker+pool run: %s (spec %s, num_workers=%d, fail_fast=%s)" % (" ".join(f[2:]), sp["id"], sp["w"], sp["ff"]),
                               {"spec": sp, "harness_output": l, "replay_cmd": "./check %s --replay <this file>" % pid})
+        if rc == 66 and not timed_out:
+            reps = race_reports(se)
+            if reps and all(c == "pool-close-vs-send" for c, _ in reps):
+                info["race_detector_pool_close_vs_send_reports"] = info.get("race_detector_pool_close_vs_send_reports", 0) + len(reps)
+                continue
         if timed_out or rc != 0:
             done = len(lines)
             sp = chunk[done] if done < len(chunk) else None
@@ -587,6 +592,30 @@ def stress_campaign(out, pid, tier, focus, race=False):
                           {"stress": [shape, 40, runs, 0]})
     info["ungated_walker_only_walks"] = legacy
     return info
+
+
+def race_reports(stderr):
+    """Split the race detector's output into reports; classify each.  Class 'pool-close-vs-send': the worker pool closes its job
+    channel in Shutdown while a Run is sending on it -- by design (the send's panic is recovered and turned into 'worker pool is
+    closed', task_worker_pool.go enqueue); the race detector reports close-vs-send on a channel, the existing test
+    TestRunWithConcurrentShutdown does the same under -race.  It cannot corrupt memory or crash the process and is not judged."""
+    reps = []
+    cur = None
+    for line in stderr.split("\n"):
+        if "WARNING: DATA RACE" in line:
+            cur = []
+            reps.append(cur)
+        elif line.startswith("==================") and cur is not None and cur:
+            cur = None
+        elif cur is not None:
+            cur.append(line)
+    res = []
+    for r in reps:
+        txt = "\n".join(r)
+        benign = ("Shutdown" in txt and ("closechan" in txt or "close(" in txt or "runtime.closechan" in txt) and
+                  ("enqueue" in txt or "chansend" in txt)) and "completions" not in txt and "mapassign" not in txt and "mapiter" not in txt
+        res.append(("pool-close-vs-send" if benign else "other", txt[:1500]))
+    return res
 
 
 def explore_tiny(out, drv=None):
